@@ -27,6 +27,7 @@ DEFAULT_BUDGET = {
     "pause": 0,  # operator pause (store.pause)
     "unpause": 0,  # operator resume (Orchestrator.unpause), only after the pause
     "oprestart": 0,  # operator restart of a completed stage (Orchestrator.restart)
+    "fault": 0,  # one transient database error raised by the connection before statement i of a delivery
 }
 
 
@@ -75,6 +76,7 @@ class Explorer:
         self.actions_filter = actions_filter
         self.die_points = die_points
         self.late_restart = late_restart
+        self._stmt_cache = {}
         self.sweep_at_quiescence = sweep_at_quiescence
         # results
         self.states = 0
@@ -145,6 +147,11 @@ class Explorer:
                 self.skip_counts["symmetric-duplicate"] += 1
                 continue
             acts.append(("d:" + l, m["id"]))
+            if b.get("fault", 0) > 0 and m["id"] == min(x["id"] for x in ready):
+                # the oldest ready message only (fault exploration runs on the in-order schedule)
+                for i in range(self.count_statements(st, m["id"])):
+                    for fk in self.fault_kinds:
+                        acts.append((f"df{fk}{i}:" + l, m["id"]))
             if b["noack"] > 0:
                 for dp in self.die_points:
                     acts.append((f"d{dp[0]}:" + l, m["id"]))
@@ -225,7 +232,11 @@ class Explorer:
         tr = Transition()
         tr.pre, tr.action, tr.exc, tr.msg, tr.mlabel = st.view, name, None, None, None
         kind = name.split(":", 1)[0]
-        if kind in ("d", "dm", "da", "dp", "early"):
+        if kind.startswith("df"):
+            b["fault"] -= 1
+            tr.mlabel = name.split(":", 1)[1]
+            tr.msg, tr.exc = self.deliver_with_fault(arg, kind[2], int(kind[3:]))
+        elif kind in ("d", "dm", "da", "dp", "early"):
             die = {"dm": "mark", "da": "ack", "dp": "poll"}.get(kind)
             if die:
                 b["noack"] -= 1
@@ -301,6 +312,55 @@ class Explorer:
         tr.ledger = list(w.ledger)
         tr.calls = list(w.handler_calls)
         return tr, b
+
+    fault_kinds = ("L",)  # L: "database is locked" (transient), E: "disk I/O error" (not retried by the engine)
+
+    def count_statements(self, st, row_id):
+        """Statements the engine executes while this delivery is handled (dry run on the restored state)."""
+        from .world import HOOKS
+
+        k = (st.view.key({"b": st.budget}), row_id)
+        n = self._stmt_cache.get(k)
+        if n is None:
+            w = self.w
+            self.restore(st)
+            c = [0]
+
+            def count(conn, sql, params):
+                if w._engine_active:
+                    c[0] += 1
+
+            HOOKS.pre_execute = count
+            try:
+                w.deliver(row_id)
+            finally:
+                HOOKS.pre_execute = None
+            if w.conn.in_transaction:
+                w.conn.rollback()
+            n = self._stmt_cache[k] = c[0]
+        return n
+
+    def deliver_with_fault(self, row_id, fk, i):
+        import sqlite3
+
+        from .world import HOOKS
+
+        w = self.w
+        fired = {"n": 0, "done": False}
+
+        def inject(conn, sql, params):
+            if not w._engine_active or fired["done"]:
+                return
+            if fired["n"] == i:
+                fired["done"] = True
+                raise sqlite3.OperationalError("database is locked" if fk == "L" else "disk I/O error")
+            fired["n"] += 1
+
+        HOOKS.pre_execute = inject
+        try:
+            return w.deliver(row_id)
+        finally:
+            HOOKS.pre_execute = None
 
     def fold(self, st: State, tr: Transition, budget):
         """Monitor updates; returns (new State, violations)."""
